@@ -654,7 +654,7 @@ def run_check(h, tier, seed, jobs=None, only=None):
             r = run_cell(h, c, tier, seed, budget)
             print(json.dumps({k: v for k, v in r.items() if k not in ("functions", "samples")}, indent=1, default=str)[:6000])
             results.append(r)
-        return finish(h, tier, seed, cells, results, time.time() - t0)
+        return finish(h, tier, seed, cells, results, time.time() - t0, only=only)
     ctx = mp.get_context("fork")
     q = ctx.Queue()
     pending = list(cells)
@@ -686,10 +686,10 @@ def run_check(h, tier, seed, jobs=None, only=None):
                 if name in running and q.empty():
                     running.pop(name)
                     results.append({"cell": name, "status": "harness-error", "notes": ["worker died with exit code %s" % p.exitcode]})
-    return finish(h, tier, seed, cells, results, time.time() - t0)
+    return finish(h, tier, seed, cells, results, time.time() - t0, only=only)
 
 
-def finish(h, tier, seed, cells, results, wall):
+def finish(h, tier, seed, cells, results, wall, only=None):
     known = [k for k in load_known() if k.get("property") == h.pid]
     agg = {k: 0 for k in ("paths", "aborted", "decisions", "queries", "obligations", "discharged", "validated", "nontrivial")}
     solver_s = 0.0
@@ -798,7 +798,12 @@ def finish(h, tier, seed, cells, results, wall):
         "wall_s": round(wall, 2),
         "violations": len(seen_sig),
     }
-    with open(os.path.join(VERIF, "evidence", "%s.json" % h.pid), "w") as fh:
+    # evidence describes runs against /repo only: a run redirected to a scratch tree (VF_REPO, seeded-change
+    # experiments) or restricted to some cells (--only) writes next to it and leaves the committed file alone
+    ev_name = "%s.json" % h.pid
+    if os.environ.get("VF_REPO") or only:
+        ev_name = "%s.scratch.json" % h.pid
+    with open(os.path.join(VERIF, "evidence", ev_name), "w") as fh:
         json.dump(ev, fh, indent=1, default=str)
     for l in out_lines:
         print(l)
